@@ -40,7 +40,25 @@ bool iso(const GraphSnap& ga, NiObject* a, const GraphSnap& gb, NiObject* b, boo
 	const BlockSnap& bb = gb.blocks[gb.index.at(b)];
 	blocks++;
 	if (ba.type != bb.type) { cls = "type/" + ba.type; err = "source block " + ba.type + " was cloned as " + bb.type; return false; }
+	if (!top)
+		if (auto na = dynamic_cast<NiNode*>(a)) {
+			// a node owned below a shape (synthesised graphs only) that shares its name with another node of the source: CloneShape places
+			// the source's nodes by name (FindBlockByName), so such a clone may receive children meant for its namesake; names are the
+			// library's node identity, ambiguous ones are outside what the property speaks about
+			for (auto& o : ga.blocks)
+				if (auto other = dynamic_cast<NiNode*>(o.obj))
+					if (other != na && other->name.get() == na->name.get()) { R_stat("cloned_nodes_with_ambiguous_names_not_compared"); return true; }
+		}
 	bool boneContainer = dynamic_cast<NiBoneContainer*>(a) != nullptr;   // bone pointer lists are rebuilt by name (checked through the bone list)
+	{
+		// other pointer arrays (e.g. the two bone lists of a BSTreeNode): pointers to blocks outside the cloned sub-graph cannot resolve
+		// in the destination, are emptied and leave the array when it is written; such a block is compared like a bone container
+		// (owning slots in order), not by payload, which holds the array counts
+		size_t pa = 0, pb = 0;
+		for (auto f : ba.slotIsPtr) pa += f == 1;
+		for (auto f : bb.slotIsPtr) pb += f == 1;
+		if (!boneContainer && pb < pa && ba.slotIndex.size() - pa == bb.slotIndex.size() - pb) { boneContainer = true; R_stat("blocks_with_pointer_arrays_to_blocks_outside_the_clone"); }
+	}
 	if (!top && !boneContainer && ba.canon != bb.canon && !(modelSpaceStripped && (ba.type == "NiSkinPartition" || dynamic_cast<NiGeometryData*>(a)))) {
 		size_t d = 0;
 		while (d < ba.canon.size() && d < bb.canon.size() && ba.canon[d] == bb.canon[d]) d++;
@@ -234,6 +252,13 @@ void cloneCheck(NifFile& src, NiShape* srcShape, NifFile& dst, bool sameModel, c
 			auto ia = ws.find(a), ib = wd.find(b);
 			if (ia == ws.end() || ib == wd.end()) continue;
 			if (dynamic_cast<NiBoneContainer*>(a) || dynamic_cast<NiShape*>(a)) continue;
+			if (auto na = dynamic_cast<NiNode*>(a)) {
+				// nodes owned below the shape whose name another source node carries as well: see iso()
+				bool ambiguous = false;
+				for (uint32_t q = 0; q < src.GetHeader().GetNumBlocks() && !ambiguous; q++)
+					if (auto other = src.GetHeader().GetBlock<NiNode>(q)) ambiguous = other != na && other->name.get() == na->name.get();
+				if (ambiguous) continue;
+			}
 			if (modelSpaceStripped && (dynamic_cast<NiGeometryData*>(a) || dynamic_cast<NiSkinPartition*>(a))) continue;
 			R_stat("written_payloads_compared");
 			if (ia->second != ib->second) {
